@@ -178,3 +178,7 @@ RULE = ("hardware half: TLC explores EventMon_MC (all sizes<=N, all trigger-mode
 
 def main(tier):
     return hwcheck.check("C13", tier, [Monitor(), Map()], RULE)
+
+
+def replay(path):
+    return hwcheck.replay(path, [Monitor(), Map()])
